@@ -295,6 +295,9 @@ func getCondWorld() *condWorld {
 		atomic.StoreInt64(&w.now, time.Now().Unix())
 		cache := caching.NewCacheWithOptions([]caching.StorageConfiguration{{Id: "c1", Path: dir, Size: 1 << 40}}, Logger,
 			func() time.Time { return time.Unix(atomic.LoadInt64(&w.now), 0) })
+		// the storage's size limiter scans the directory once at start and panics if a directory vanishes
+		// under it; the cases below remove what they created
+		rngWaitLimiterIdle()
 		rules, err := proxy.ParseRules([]byte(`{"rules":[{"path":"/*","destination":"http://o.test/$1","cache":"c1"}]}`), Logger)
 		if err != nil {
 			panic(err)
